@@ -68,22 +68,40 @@ fn batch(w: &World, text: &str, lines: &[&str]) -> Option<Obs> {
     }
 }
 
-/// incremental driver: what is visible after all lines: concatenated emitted rows (select) or the last shown table (aggregate)
+/// incremental driver: everything that is shown while the lines are fed one at a time (every emitted row set / every
+/// shown table with its reached-limit flag, in order), through the engine directly and through the real follow-mode
+/// line iterator
 fn incremental(w: &World, text: &str, lines: &[&str]) -> Option<Vec<String>> {
     let st = sut::parse(text).ok()?;
-    if st.join_clause().is_some() || text.contains("LIMIT") {
+    if st.join_clause().is_some() {
         return None;
     }
-    match sut::run_incremental(&w.tables, &st, lines) {
+    let shown = |steps: &Vec<sut::StepOut>| -> Vec<String> { steps.iter().filter(|s| s.table.is_some()).map(|s| format!("{:?} limit={}", s.table.as_ref().unwrap().rows, s.reached_limit)).collect() };
+    let a = match sut::run_incremental(&w.tables, &st, lines) {
         Outcome::Ok(steps) => {
-            if st.is_aggregate() {
-                Some(steps.iter().rev().find_map(|s| s.table.as_ref()).map(|t| t.rows.iter().map(|r| format!("{:?}", r)).collect()).unwrap_or_default())
-            } else {
-                Some(steps.iter().filter_map(|s| s.table.as_ref()).flat_map(|t| t.rows.iter().map(|r| format!("{:?}", r))).collect())
+            // stop at the limit like the executors do
+            let mut cut = Vec::new();
+            for s in steps {
+                let r = s.reached_limit && s.table.is_some();
+                cut.push(s);
+                if r {
+                    break;
+                }
             }
+            shown(&cut)
         }
-        _ => None,
-    }
+        _ => return None,
+    };
+    let files = sut::files_from(lines, &[lines.len()]);
+    let f = match sut::run_follow(&w.tables, &st, &files[0]) {
+        Outcome::Ok(steps) => shown(&steps),
+        Outcome::Err(e) => vec![format!("error {}", e)],
+        Outcome::Panic(p) => vec![format!("panic {}", p.msg)],
+    };
+    let mut out = a;
+    out.push("--follow--".into());
+    out.extend(f);
+    Some(out)
 }
 
 fn insertions(len: usize, noise: usize, two: bool) -> Vec<Vec<(usize, usize)>> {
@@ -251,7 +269,12 @@ pub fn run(ctx: &Ctx) -> i32 {
     let k = 5u64;
     let nseq = seq_count(k, maxlen);
     let nst = w.stmts.len() as u64;
-    let (done, complete) = par_for_budget(ctx, nseq * nst, 4, |idx| {
+    let describe = |idx: u64| {
+        let si = (idx % nst) as usize;
+        let seq = seq_decode(idx / nst, k, maxlen);
+        json!({"hang": true, "stmt": si, "statement": w.stmts[si].0, "seq": seq, "note": "one of the noise insertions for this (statement, clean sequence) did not return"})
+    };
+    let (done, complete) = par_for_watch(ctx, nseq * nst, 4, &describe, |idx| {
         let si = (idx % nst) as usize;
         let seq = seq_decode(idx / nst, k, maxlen);
         let (fs, evals, nt) = check_case(&w, si, &seq, None, two);
